@@ -244,7 +244,7 @@ func runC13(w *World, r *Report) {
 	// the wrappers that add the node key / stream-wrapper name keep what they were given: they may extend the error
 	// they received when that error itself is an *internalError, but they never replace it by an *internalError found
 	// deeper in its chain (that drops every wrapper the node put around it — its own sentinel, typed error, joined errors)
-	r.Rule("C13.wrap-keeps-outer", "wrapGraphNodeError / wrapStreamWrapperError return the given error itself (extended in place) or a new error wrapping it — never an inner *internalError located with errors.As", 2)
+	r.Rule("C13.wrap-keeps-outer", "wrapGraphNodeError / wrapStreamWrapperError return the given error itself, an extended copy of it (when it is an *internalError itself) or a new error wrapping it — never an inner *internalError located with errors.As", 2)
 	for _, n := range []string{"wrapGraphNodeError", "wrapStreamWrapperError"} {
 		f := w.Fn("compose", n)
 		usesAs := len(callsNamed(f, "errors.As")) > 0
@@ -272,8 +272,20 @@ func runC13(w *World, r *Report) {
 				// new internalError: origError must be the parameter
 				okOrig := false
 				for _, fw := range fieldWrites(f) {
-					if fw.base == ssa.Value(x) && fw.field.Name() == "origError" && fw.val == ssa.Value(errP) {
-						okOrig = true
+					if fw.base == ssa.Value(x) && fw.field.Name() == "origError" {
+						if fw.val == ssa.Value(errP) {
+							okOrig = true
+						}
+						// a copy of the given error itself (err.(*internalError)) with an extended path: same cause
+						if f2, base := loadedField(fw.val); f2 != nil && f2.Name() == "origError" {
+							if p := paramRoot(base, 0); p == errP {
+								if ex, ok := base.(*ssa.Extract); ok {
+									if ta, ok := ex.Tuple.(*ssa.TypeAssert); ok && ta.X == ssa.Value(errP) {
+										okOrig = true
+									}
+								}
+							}
+						}
 					}
 				}
 				if !okOrig {
@@ -306,7 +318,7 @@ func runC13(w *World, r *Report) {
 				}
 			}
 		})
-		r.Check(good && !usesAs, "C13.wrap-keeps-outer", n+" keeps the error it was given", f.Pos(), "returns err, err.(*internalError) extended in place, or &internalError{origError: err}",
+		r.Check(good && !usesAs, "C13.wrap-keeps-outer", n+" keeps the error it was given", f.Pos(), "returns err, a copy of err.(*internalError) with the extended path, or &internalError{origError: err}",
 			fmt.Sprintf("the wrapper can return an inner *internalError instead of the error the node returned (errors.As used=%v; %s): a node body that runs another compiled runnable and wraps its error with its own sentinel / typed error loses it — errors.Is / errors.As on the run's error no longer find the node's error", usesAs, det))
 	}
 
@@ -415,62 +427,59 @@ func runC13(w *World, r *Report) {
 	r.Rule("C13.forwarder-panic", "a panic in a stream-forwarding goroutine is delivered as an error item with a blocking send; output/source closed on every exit", 6)
 	forwarderChecks(w, r, "C13.forwarder-panic")
 
-	// fresh error objects: internalError values are mutated in place while they travel up (node path is prepended),
-	// so they must be created per failure, never stored in a package-level variable
-	r.Rule("C13.fresh-error", "no package-level variable is initialised with an internalError (they are mutated by wrapGraphNodeError on the way up)", 1)
-	{
-		ctors := []*ssa.Function{w.Fn("compose", "newGraphRunError"), w.Fn("compose", "wrapGraphNodeError"), w.Fn("compose", "newStreamWrapperError"), w.Fn("compose", "wrapStreamWrapperError")}
-		bad := 0
-		ieT := w.Named("compose", "internalError")
-		for _, fn := range w.SSAPkg("compose").Members {
-			f, ok := fn.(*ssa.Function)
-			if !ok || f.Name() != "init" {
-				continue
-			}
-			instrs(f, func(in ssa.Instruction) {
-				st, ok := in.(*ssa.Store)
-				if !ok {
-					return
-				}
-				if _, isG := st.Addr.(*ssa.Global); !isG {
-					return
-				}
-				v := st.Val
-				isIE := false
-				if c, ok := v.(*ssa.Call); ok && isCallTo(c, ctors...) {
-					isIE = true
-				}
-				if namedOf(through(v).Type()) == ieT {
-					isIE = true
-				}
-				if isIE {
-					bad++
-					r.Fail("C13.fresh-error", "package-level internalError "+st.Addr.Name(), st.Pos(), "a shared *internalError is returned by many runs; wrapGraphNodeError prepends node keys to it in place, so node paths accumulate across runs and graphs")
-				}
-			})
-		}
-		if bad == 0 {
-			r.OK("C13.fresh-error", "compose package initialisers", w.Fn("compose", "newGraphRunError").Pos(), "no global holds an internalError")
-		}
-		// and wrapGraphNodeError's in-place update is the reason: keep the fact visible
-		r.Info("C13.fresh-error", "wrapGraphNodeError mutates the existing internalError", wrap.Pos(), "ie.nodePath.path = append([]string{nodeKey}, ...) on the error object found by errors.As")
-	}
+	// run errors are extended (node key / stream wrapper prepended) on their way up. Until fix df50b03 that was done in
+	// place, so an error object seen by two runs accumulated both paths; the rule used to forbid package-level
+	// internalError values (one way of sharing). The invariant itself is decided now: the extenders never write through
+	// the error they are given, so sharing an error object (a memoised node error, a package-level one) is harmless.
+	r.Rule("C13.fresh-error", "wrapGraphNodeError / wrapStreamWrapperError build a new error object and never write through the one they are given: the node path an error reports is the path of THIS failure (shared with C09.errors-copied-on-extend)", 2)
+	ruleNoMutateParams(w, r, "C13.fresh-error", w.Fn("compose", "wrapGraphNodeError"), nil)
+	ruleNoMutateParams(w, r, "C13.fresh-error", w.Fn("compose", "wrapStreamWrapperError"), nil)
 
 	// sentinel
-	r.Rule("C13.sentinel", "the step-limit exit of runner.run returns newGraphRunError(ErrExceedMaxSteps)", 1)
+	r.Rule("C13.sentinel", "the step-limit exit of runner.run returns a run error whose cause is the ErrExceedMaxSteps sentinel itself (built at the exit, or once in a package-level variable)", 1)
 	run := w.Fn("compose", "runner.run")
 	gre := w.Fn("compose", "newGraphRunError")
 	sent := w.GlobalVar("compose", "ErrExceedMaxSteps")
-	n := 0
-	for _, c := range callsTo(run, gre) {
-		a := c.Common().Args[0]
-		if u, ok := a.(*ssa.UnOp); ok {
+	isSentinelErr := func(v ssa.Value) bool {
+		c, ok := v.(*ssa.Call)
+		if !ok || !isCallTo(c, gre) {
+			return false
+		}
+		if u, ok := c.Call.Args[0].(*ssa.UnOp); ok {
 			if g, ok := u.X.(*ssa.Global); ok && g.Object() == sent {
-				n++
-				r.OK("C13.sentinel", "runner.run step-limit return", c.Pos(), "cause is the ErrExceedMaxSteps sentinel itself")
+				return true
 			}
 		}
+		return false
 	}
+	// package-level variables initialised with newGraphRunError(ErrExceedMaxSteps)
+	sentinelGlobals := map[*ssa.Global]bool{}
+	if initFn := w.SSAPkg("compose").Func("init"); initFn != nil {
+		instrs(initFn, func(in ssa.Instruction) {
+			if st, ok := in.(*ssa.Store); ok {
+				if g, ok := st.Addr.(*ssa.Global); ok && isSentinelErr(st.Val) {
+					sentinelGlobals[g] = true
+				}
+			}
+		})
+	}
+	n := 0
+	instrs(run, func(in ssa.Instruction) {
+		ret, ok := in.(*ssa.Return)
+		if !ok || len(ret.Results) != 2 {
+			return
+		}
+		v := returnedValue(ret, 1)
+		if isSentinelErr(v) {
+			n++
+			r.OK("C13.sentinel", "runner.run step-limit return", ret.Pos(), "cause is the ErrExceedMaxSteps sentinel itself")
+		} else if u, ok := v.(*ssa.UnOp); ok {
+			if g, ok := u.X.(*ssa.Global); ok && sentinelGlobals[g] {
+				n++
+				r.OK("C13.sentinel", "runner.run step-limit return", ret.Pos(), "returns package-level "+g.Name()+" = newGraphRunError(ErrExceedMaxSteps)")
+			}
+		}
+	})
 	if n == 0 {
 		r.Fail("C13.sentinel", "runner.run step-limit return", run.Pos(), "no return in runner.run carries ErrExceedMaxSteps as cause")
 	}
